@@ -26,6 +26,7 @@ inductive Err where
   | unicodeEncodeError    -- quote(): lone surrogate
   | hierarchyRequestErr   -- CSSMediaRule.insertRule of a rule that is not allowed there
   | unsupported           -- outside the modelled fragment (the harness never compares these)
+  | fuel                  -- the model ran out of fuel (`Props/C19.setHref_noFuel`: it does not)
   deriving DecidableEq, Repr
 
 /-! ## Part 1a — string helpers -/
@@ -572,7 +573,7 @@ def twice (attempt : Res Rule) : Res Rule :=
 `fuel` bounds the import depth (`vfs.length + 2` is what the callers give). -/
 def setHref (fuel : Nat) (vfs : Vfs) (who : Who) (chain : List Str) (href media : Str) : Res Rule :=
   match fuel with
-  | 0 => ⟨.error .unsupported, []⟩
+  | 0 => ⟨.error .fuel, []⟩
   | fuel + 1 =>
     match chain with
     | [] => ⟨.error .unsupported, []⟩                       -- parent sheet without href: cwd, not modelled
@@ -588,7 +589,8 @@ def setHref (fuel : Nat) (vfs : Vfs) (who : Who) (chain : List Str) (href media 
             -- :343-347 the text is parsed; its own @imports are loaded as it goes
             let r := loadWith (fun h m => twice (setHref fuel vfs who (full :: chain) h m)) raw
             match r.val with
-            | .error _ => ⟨.error .unsupported, (who, full) :: r.log⟩
+            | .error .fuel => ⟨.error .fuel, (who, full) :: r.log⟩
+            | .error _ => ⟨.error .unsupported, (who, full) :: r.log⟩      -- :349 catches; not modelled further
             | .ok rules => ⟨.ok (.imp href media true full rules), (who, full) :: r.log⟩   -- :360
 
 /-- an `@import` of the sheet that is being parsed -/
